@@ -122,115 +122,132 @@ func (c *c18) run(line []byte, st *stats, out func(mismatch)) {
 	feats := map[string]bool{}
 	evals := 0
 	var sample any
-	for ri := range cs.Roots {
-		root := cs.Ws[ri].Path
-		queries := cs.queries(ri)
-		shape := map[string]int{}
-		for _, q := range queries {
-			if q.Q == "path" {
-				shape[q.Rel]++
-			}
-		}
-		sh := "root-shape"
-		for _, k := range sortedKeys(shape) {
-			sh += fmt.Sprintf("/%s*%d", k, shape[k])
-		}
-		feats[sh] = shape["public-reexport"]+shape["transitive-hidden"] > 0
-		lf := res.File(root)
-		if lf == nil {
-			harness("no compiled file for %s", root)
-			return
-		}
-		r := linker.ResolverFromFile(lf)
-		for qi := range queries {
-			q := queries[qi]
-			c.n++
-			if c.corrupt > 0 && int(c.n)%c.corrupt == 0 {
-				q.Found = !q.Found
-			}
-			evals++
-			brief := map[string]any{"root": root, "query": q, "imports": graph}
-			report := func(class, detail string) {
-				b := map[string]any{"root": root, "query": q, "imports": graph, "src": rd.Src, "replay": json.RawMessage(line)}
-				out(mismatch{Class: class, Case: b, Detail: detail})
-			}
-			dir := "hidden-but-found"
-			if q.Found {
-				dir = "visible-but-missing"
-			}
-			verdict := func(api string, found bool, err error, gotName, gotFile string) {
-				if err != nil && !errors.Is(err, protoregistry.NotFound) && q.Found {
-					report("visible:"+api+":error", fmt.Sprintf("%s(%s): %v", api, q.Name, err))
-					return
-				}
-				if found != q.Found {
-					report("visible:"+api+":"+dir+":"+q.Rel, fmt.Sprintf("%s(%s %d): found=%v, spec says %v (defined in %s, relation %s)", api, q.Name, q.Num, found, q.Found, q.DefFile, q.Rel))
-					return
-				}
-				if found && (gotName != q.Target || gotFile != q.DefFile) {
-					report("visible:"+api+":wrong-element", fmt.Sprintf("%s(%s %d) returned %s from %s, want %s from %s", api, q.Name, q.Num, gotName, gotFile, q.Target, q.DefFile))
+	// the same expectations are checked against two ways of producing the linked files:
+	//   ""          protocompile.Compiler (dependencies = exactly the imports)
+	//   "superset:" linker.Link bottom-up, dependencies = every file linked so far
+	check := func(tag string, res *ws.Result) {
+		for ri := range cs.Roots {
+			root := cs.Ws[ri].Path
+			queries := cs.queries(ri)
+			shape := map[string]int{}
+			for _, q := range queries {
+				if q.Q == "path" {
+					shape[q.Rel]++
 				}
 			}
-			func() {
-				defer func() {
-					if p := recover(); p != nil {
-						report("visible:panic", fmt.Sprint(p))
+			sh := "root-shape"
+			for _, k := range sortedKeys(shape) {
+				sh += fmt.Sprintf("/%s*%d", k, shape[k])
+			}
+			feats[sh] = shape["public-reexport"]+shape["transitive-hidden"] > 0
+			lf := res.File(root)
+			if lf == nil {
+				harness("no compiled file for %s", root)
+				return
+			}
+			r := linker.ResolverFromFile(lf)
+			for qi := range queries {
+				q := queries[qi]
+				c.n++
+				if c.corrupt > 0 && int(c.n)%c.corrupt == 0 {
+					q.Found = !q.Found
+				}
+				evals++
+				brief := map[string]any{"root": root, "query": q, "imports": graph}
+				report := func(class, detail string) {
+					b := map[string]any{"root": root, "query": q, "imports": graph, "src": rd.Src, "replay": json.RawMessage(line)}
+					out(mismatch{Class: class, Case: b, Detail: detail})
+				}
+				dir := "hidden-but-found"
+				if q.Found {
+					dir = "visible-but-missing"
+				}
+				verdict := func(api string, found bool, err error, gotName, gotFile string) {
+					if err != nil && !errors.Is(err, protoregistry.NotFound) && q.Found {
+						report("visible:"+tag+api+":error", fmt.Sprintf("%s(%s): %v", api, q.Name, err))
+						return
+					}
+					if found != q.Found {
+						report("visible:"+tag+api+":"+dir+":"+q.Rel, fmt.Sprintf("%s(%s %d): found=%v, spec says %v (defined in %s, relation %s)", api, q.Name, q.Num, found, q.Found, q.DefFile, q.Rel))
+						return
+					}
+					if found && (gotName != q.Target || gotFile != q.DefFile) {
+						report("visible:"+tag+api+":wrong-element", fmt.Sprintf("%s(%s %d) returned %s from %s, want %s from %s", api, q.Name, q.Num, gotName, gotFile, q.Target, q.DefFile))
+					}
+				}
+				func() {
+					defer func() {
+						if p := recover(); p != nil {
+							report("visible:"+tag+"panic", fmt.Sprint(p))
+						}
+					}()
+					switch q.Q {
+					case "name":
+						d, err := r.FindDescriptorByName(protoreflect.FullName(q.Name))
+						if err == nil && d != nil {
+							verdict("FindDescriptorByName", true, nil, string(d.FullName()), d.ParentFile().Path())
+						} else {
+							verdict("FindDescriptorByName", false, err, "", "")
+						}
+						// typed lookups: found exactly when visible AND of the right kind
+						mt, err := r.FindMessageByName(protoreflect.FullName(q.Name))
+						wantMsg := q.Found && q.Kind == "message"
+						if (err == nil) != wantMsg {
+							report("visible:"+tag+"FindMessageByName:"+dir+":"+q.Rel, fmt.Sprintf("FindMessageByName(%s) err=%v, spec: kind %s visible=%v", q.Name, err, q.Kind, q.Found))
+						} else if err == nil && string(mt.Descriptor().FullName()) != q.Target {
+							report("visible:"+tag+"FindMessageByName:wrong-element", fmt.Sprintf("got %s", mt.Descriptor().FullName()))
+						}
+						if !wantMsg && err != nil && !q.Found && !errors.Is(err, protoregistry.NotFound) {
+							report("visible:"+tag+"FindMessageByName:error-kind", fmt.Sprintf("FindMessageByName(%s): invisible element gives %v, want NotFound", q.Name, err))
+						}
+						xt, err := r.FindExtensionByName(protoreflect.FullName(q.Name))
+						wantExt := q.Found && q.Kind == "ext"
+						if (err == nil) != wantExt {
+							report("visible:"+tag+"FindExtensionByName:"+dir+":"+q.Rel, fmt.Sprintf("FindExtensionByName(%s) err=%v, spec: kind %s visible=%v", q.Name, err, q.Kind, q.Found))
+						} else if err == nil && string(xt.TypeDescriptor().FullName()) != q.Target {
+							report("visible:"+tag+"FindExtensionByName:wrong-element", fmt.Sprintf("got %s", xt.TypeDescriptor().FullName()))
+						}
+						if !wantExt && err != nil && !q.Found && !errors.Is(err, protoregistry.NotFound) {
+							report("visible:"+tag+"FindExtensionByName:error-kind", fmt.Sprintf("FindExtensionByName(%s): invisible element gives %v, want NotFound", q.Name, err))
+						}
+					case "extnum":
+						xt, err := r.FindExtensionByNumber(protoreflect.FullName(q.Name), protoreflect.FieldNumber(q.Num))
+						if err == nil && xt != nil {
+							verdict("FindExtensionByNumber", true, nil, string(xt.TypeDescriptor().FullName()), xt.TypeDescriptor().ParentFile().Path())
+						} else {
+							verdict("FindExtensionByNumber", false, err, "", "")
+						}
+					case "path":
+						fd, err := r.FindFileByPath(q.Name)
+						if err == nil && fd != nil {
+							verdict("FindFileByPath", true, nil, fd.Path(), fd.Path())
+						} else {
+							verdict("FindFileByPath", false, err, "", "")
+						}
+					default:
+						harness("unknown query kind %q", q.Q)
 					}
 				}()
-				switch q.Q {
-				case "name":
-					d, err := r.FindDescriptorByName(protoreflect.FullName(q.Name))
-					if err == nil && d != nil {
-						verdict("FindDescriptorByName", true, nil, string(d.FullName()), d.ParentFile().Path())
-					} else {
-						verdict("FindDescriptorByName", false, err, "", "")
-					}
-					// typed lookups: found exactly when visible AND of the right kind
-					mt, err := r.FindMessageByName(protoreflect.FullName(q.Name))
-					wantMsg := q.Found && q.Kind == "message"
-					if (err == nil) != wantMsg {
-						report("visible:FindMessageByName:"+dir+":"+q.Rel, fmt.Sprintf("FindMessageByName(%s) err=%v, spec: kind %s visible=%v", q.Name, err, q.Kind, q.Found))
-					} else if err == nil && string(mt.Descriptor().FullName()) != q.Target {
-						report("visible:FindMessageByName:wrong-element", fmt.Sprintf("got %s", mt.Descriptor().FullName()))
-					}
-					if !wantMsg && err != nil && !q.Found && !errors.Is(err, protoregistry.NotFound) {
-						report("visible:FindMessageByName:error-kind", fmt.Sprintf("FindMessageByName(%s): invisible element gives %v, want NotFound", q.Name, err))
-					}
-					xt, err := r.FindExtensionByName(protoreflect.FullName(q.Name))
-					wantExt := q.Found && q.Kind == "ext"
-					if (err == nil) != wantExt {
-						report("visible:FindExtensionByName:"+dir+":"+q.Rel, fmt.Sprintf("FindExtensionByName(%s) err=%v, spec: kind %s visible=%v", q.Name, err, q.Kind, q.Found))
-					} else if err == nil && string(xt.TypeDescriptor().FullName()) != q.Target {
-						report("visible:FindExtensionByName:wrong-element", fmt.Sprintf("got %s", xt.TypeDescriptor().FullName()))
-					}
-					if !wantExt && err != nil && !q.Found && !errors.Is(err, protoregistry.NotFound) {
-						report("visible:FindExtensionByName:error-kind", fmt.Sprintf("FindExtensionByName(%s): invisible element gives %v, want NotFound", q.Name, err))
-					}
-				case "extnum":
-					xt, err := r.FindExtensionByNumber(protoreflect.FullName(q.Name), protoreflect.FieldNumber(q.Num))
-					if err == nil && xt != nil {
-						verdict("FindExtensionByNumber", true, nil, string(xt.TypeDescriptor().FullName()), xt.TypeDescriptor().ParentFile().Path())
-					} else {
-						verdict("FindExtensionByNumber", false, err, "", "")
-					}
-				case "path":
-					fd, err := r.FindFileByPath(q.Name)
-					if err == nil && fd != nil {
-						verdict("FindFileByPath", true, nil, fd.Path(), fd.Path())
-					} else {
-						verdict("FindFileByPath", false, err, "", "")
-					}
-				default:
-					harness("unknown query kind %q", q.Q)
+				f := fmt.Sprintf("%s/%s/%s/%v", q.Q, q.Kind, q.Rel, q.Found)
+				nontrivial := q.Rel != "self" && q.Rel != "unrelated"
+				feats[f] = nontrivial
+				if sample == nil && q.Rel == "public-reexport" && q.Q == "extnum" {
+					sample = brief
 				}
-			}()
-			f := fmt.Sprintf("%s/%s/%s/%v", q.Q, q.Kind, q.Rel, q.Found)
-			nontrivial := q.Rel != "self" && q.Rel != "unrelated"
-			feats[f] = nontrivial
-			if sample == nil && q.Rel == "public-reexport" && q.Q == "extnum" {
-				sample = brief
 			}
 		}
+	}
+	check("", res)
+	res2 := ws.LinkSuperset(cs.Ws, rd.Src)
+	if !res2.OK() {
+		var ms []string
+		for _, e := range res2.Errors {
+			ms = append(ms, e.String())
+		}
+		out(mismatch{Class: "visible:superset:valid-workspace-rejected", Case: map[string]any{"imports": graph, "src": rd.Src, "replay": json.RawMessage(line)},
+			Detail: fmt.Sprintf("%v %v %s", res2.Err, ms, res2.Panic)})
+	} else {
+		check("superset:", res2)
 	}
 	st.mu.Lock()
 	st.Cases++
